@@ -26,11 +26,19 @@ Qed.
 Lemma fabs_Z x : fabs Zops x = Z.abs x.
 Proof. unfold fabs. cbn [fleb f0 fopp Zops]. destruct (Z.leb_spec 0 x); lia. Qed.
 
-Open Scope R_scope.
-Lemma colsign_R x : colsign Rops x = if Rlt_dec x 0 then -1 else 1.
+Local Open Scope R_scope.
+Lemma Rleb_t a b : a <= b -> Rleb a b = true.
+Proof. apply Rleb_true. Qed.
+Lemma Rleb_f a b : b < a -> Rleb a b = false.
+Proof. apply Rleb_false. Qed.
+Lemma colsign_R x : colsign Rops x = if Rlt_dec x 0 then - (1) else 1.
 Proof.
-  unfold colsign, nz1, fsign, fltb, feqb. cbn [fleb f0 f1 fopp Rops]. unfold Rleb.
-  destruct (Rlt_dec x 0); repeat (destruct (Rle_dec _ _); cbn [negb andb]); try lra; reflexivity.
+  unfold colsign, nz1, fsign, fltb, feqb. cbn [fleb f0 f1 fopp Rops].
+  destruct (Rlt_dec x 0) as [H|H].
+  - rewrite (Rleb_f 0 x) by lra. cbn [negb]. rewrite (Rleb_f 0 (- (1))) by lra. now rewrite andb_false_r.
+  - rewrite (Rleb_t 0 x) by lra. cbn [negb]. destruct (Rle_dec x 0) as [H0|H0].
+    + rewrite (Rleb_t x 0) by lra. cbn [negb]. rewrite (Rleb_t 0 0) by lra. reflexivity.
+    + rewrite (Rleb_f x 0) by lra. cbn [negb]. rewrite (Rleb_f 1 0) by lra. reflexivity.
 Qed.
 Lemma colsign_sq_R x : colsign Rops x * colsign Rops x = 1.
 Proof. rewrite colsign_R. destruct (Rlt_dec x 0); lra. Qed.
@@ -46,8 +54,12 @@ Proof.
 Qed.
 Lemma nz1_R s : nz1 Rops s = if Req_EM_T s 0 then 1 else s.
 Proof.
-  unfold nz1, feqb. cbn [fleb f0 f1 Rops]. unfold Rleb.
-  destruct (Req_EM_T s 0); repeat (destruct (Rle_dec _ _); cbn [andb]); try lra; reflexivity.
+  unfold nz1, feqb. cbn [fleb f0 f1 Rops].
+  destruct (Req_EM_T s 0) as [E|E].
+  - rewrite E, (Rleb_t 0 0) by lra. reflexivity.
+  - destruct (Rle_dec s 0).
+    + rewrite (Rleb_f 0 s) by lra. now rewrite andb_false_r.
+    + rewrite (Rleb_f s 0) by lra. reflexivity.
 Qed.
 
 (* ---------- sums over R *)
@@ -86,12 +98,13 @@ Proof.
 Qed.
 
 (* contract of the square-root oracle for one factor: s_r^2 = sum_i A[i][r]^2, s_r >= 0, for every component r < R *)
-Definition norms_ok (R : nat) (sc : list R) (A : mat R) : Prop :=
-  forall r, (r < R)%nat -> vget Rops sc r * vget Rops sc r = colsumsq Rops A r /\ 0 <= vget Rops sc r.
+Definition norms_ok (rk : nat) (sc : list R) (A : mat R) : Prop :=
+  length sc = rk /\
+  forall r, (r < rk)%nat -> vget Rops sc r * vget Rops sc r = colsumsq Rops A r /\ 0 <= vget Rops sc r.
 
-Lemma zero_norm_zero_col R sc A r : norms_ok R sc A -> (r < R)%nat -> vget Rops sc r = 0 -> forall i, mget Rops A i r = 0.
+Lemma zero_norm_zero_col rk sc A r : norms_ok rk sc A -> (r < rk)%nat -> vget Rops sc r = 0 -> forall i, mget Rops A i r = 0.
 Proof.
-  intros H Hr Hs i. destruct (H r Hr) as [E _]. rewrite Hs in E. unfold colsumsq in E.
+  intros [_ H] Hr Hs i. destruct (H r Hr) as [E _]. rewrite Hs in E. unfold colsumsq in E.
   destruct (lt_dec i (length A)).
   - apply (sumR_sq_zero (length A) (fun i => mget Rops A i r)); auto. cbn [fmul Rops] in E. lra.
   - apply mget_overflow_row. lia.
@@ -107,8 +120,8 @@ Proof.
 Qed.
 
 (* per-component invariant of the normalisation loop *)
-Lemma norm_loop_term R r : (r < R)%nat -> forall fs tape w idx,
-  Forall2 (norms_ok R) tape fs -> length idx = length fs ->
+Lemma norm_loop_term rk r : (r < rk)%nat -> forall fs tape w idx,
+  Forall2 (norms_ok rk) tape fs -> length idx = length fs ->
   vget Rops (fst (norm_loop Rops tape fs w)) r * cp_term Rops (snd (norm_loop Rops tape fs w)) idx r
   = vget Rops w r * cp_term Rops fs idx r.
 Proof.
@@ -119,7 +132,7 @@ Proof.
     destruct (norm_loop Rops tape' fs (zipw (fmul Rops) w sc)) as [wf out]. cbn [fst snd] in *. cbn [cp_term].
     rewrite (vget_zipw_mul Rops Rops_ring) in IH. cbn [fmul Rops] in *. rewrite mget_div_cols.
     destruct (Req_EM_T (vget Rops sc r) 0) as [Z|NZ].
-    + rewrite (zero_norm_zero_col R sc A r Hn Hr Z). rewrite Z in IH.
+    + rewrite (zero_norm_zero_col rk sc A r Hn Hr Z). rewrite Z in IH.
       replace (vget Rops wf r * (0 / vget Rops (map (nz1 Rops) sc) r * cp_term Rops out idx r)) with 0 by (unfold Rdiv; ring).
       ring.
     + rewrite vget_map_nz1 by exact NZ. rewrite nz1_R. destruct (Req_EM_T (vget Rops sc r) 0); [contradiction|].
@@ -129,7 +142,21 @@ Proof.
 Qed.
 
 Lemma vget_ones n r : (r < n)%nat -> vget Rops (ones Rops n) r = 1.
-Proof. intros. unfold vget, ones. now apply nth_repeat_lt || (rewrite nth_indep with (d' := f1 Rops) by (now rewrite repeat_length); apply nth_repeat). Qed.
+Proof.
+  intros. unfold vget, ones. rewrite nth_indep with (d' := f1 Rops) by (now rewrite repeat_length). apply nth_repeat.
+Qed.
+Lemma length_zipw {A} (f : A -> A -> A) a b : length (zipw f a b) = Nat.min (length a) (length b).
+Proof. unfold zipw. now rewrite map_length, combine_length. Qed.
+Lemma norm_loop_wlen rk : forall fs tape w, Forall2 (norms_ok rk) tape fs -> length w = rk ->
+  length (fst (norm_loop Rops tape fs w)) = rk.
+Proof.
+  induction fs as [|A fs IH]; intros tape w H Hw.
+  - destruct tape; exact Hw.
+  - inversion H as [|sc ? tape' ? Hn Hrest]; subst. cbn [norm_loop].
+    specialize (IH tape' (zipw (fmul Rops) w sc) Hrest).
+    destruct (norm_loop Rops tape' fs (zipw (fmul Rops) w sc)) as [wf out]. cbn [fst] in *.
+    apply IH. rewrite length_zipw. destruct Hn as [Hlen _]. lia.
+Qed.
 
 (* normalisation preserves every entry of the represented tensor *)
 Theorem cp_normalize_entry tape w fs w' fs' idx :
@@ -139,7 +166,70 @@ Theorem cp_normalize_entry tape w fs w' fs' idx :
   cp_entry Rops w' fs' idx = cp_entry Rops w fs idx.
 Proof.
   unfold cp_normalize. intros E H Hl Hne.
-  assert (Lw : length w' = length w).
-  { revert E. generalize (ones Rops (length w)) at 1. intros o. admit_len. }
-  admit_rest.
+  assert (Lo : length (ones Rops (length w)) = length w) by apply repeat_length.
+  pose proof (norm_loop_wlen _ _ _ _ H Lo) as Lw. rewrite E in Lw. cbn [fst] in Lw.
+  unfold cp_entry. rewrite Lw. apply bigsum_ext. intros r Hr.
+  assert (Hl' : length idx = length (norm_inputs Rops w fs)).
+  { destruct fs; [contradiction|]. exact Hl. }
+  pose proof (norm_loop_term _ r Hr _ _ (ones Rops (length w)) idx H Hl') as T.
+  rewrite E in T. cbn [fst snd] in T. cbn [fmul Rops]. rewrite T, vget_ones by exact Hr.
+  destruct fs as [|A0 rest]; [contradiction|]. destruct idx as [|i idx]; [discriminate|].
+  cbn [norm_inputs cp_term]. rewrite (mget_scale_cols Rops Rops_ring). cbn [fmul Rops]. ring.
+Qed.
+
+(* canonical form: unit columns (zero columns stay zero), non-negative weights, weight 0 for a zero column *)
+Definition unit_or_zero (rk : nat) (sc : list R) (A' : mat R) : Prop :=
+  forall r, (r < rk)%nat -> (vget Rops sc r <> 0 -> colsumsq Rops A' r = 1) /\
+                          (vget Rops sc r = 0 -> forall i, mget Rops A' i r = 0).
+Lemma div_cols_unit rk sc A : norms_ok rk sc A -> unit_or_zero rk sc (div_cols Rops A (map (nz1 Rops) sc)).
+Proof.
+  intros Hn r Hr. split.
+  - intros NZ. unfold colsumsq, div_cols. rewrite map_length. fold (div_cols Rops A (map (nz1 Rops) sc)).
+    destruct Hn as [_ Hn]. destruct (Hn r Hr) as [E _]. unfold colsumsq in E. cbn [fmul Rops] in *.
+    rewrite (sumn_ext Rops _ _ (fun i => (mget Rops A i r * mget Rops A i r) * (/ vget Rops sc r * / vget Rops sc r))).
+    2:{ intros i _. rewrite mget_div_cols, vget_map_nz1 by exact NZ. rewrite nz1_R.
+        destruct (Req_EM_T (vget Rops sc r) 0); [contradiction|]. unfold Rdiv. ring. }
+    pose proof (sumn_scale_r Rops Rops_ring (length A) (/ vget Rops sc r * / vget Rops sc r)
+                  (fun i => mget Rops A i r * mget Rops A i r)) as S.
+    cbn [fmul Rops] in S. rewrite S, <- E. field. exact NZ.
+  - intros Z i. rewrite mget_div_cols, (zero_norm_zero_col rk sc A r Hn Hr Z). unfold Rdiv. ring.
+Qed.
+Lemma norm_loop_unit rk : forall fs tape w, Forall2 (norms_ok rk) tape fs ->
+  Forall2 (unit_or_zero rk) tape (snd (norm_loop Rops tape fs w)).
+Proof.
+  induction fs as [|A fs IH]; intros tape w H.
+  - inversion H; subst. constructor.
+  - inversion H as [|sc ? tape' ? Hn Hrest]; subst. cbn [norm_loop].
+    specialize (IH tape' (zipw (fmul Rops) w sc) Hrest).
+    destruct (norm_loop Rops tape' fs (zipw (fmul Rops) w sc)) as [wf out]. cbn [snd] in *.
+    constructor; [now apply div_cols_unit | exact IH].
+Qed.
+Lemma norm_loop_weights rk r : (r < rk)%nat -> forall fs tape w, Forall2 (norms_ok rk) tape fs ->
+  (0 <= vget Rops w r -> 0 <= vget Rops (fst (norm_loop Rops tape fs w)) r) /\
+  (vget Rops w r = 0 \/ Exists (fun sc => vget Rops sc r = 0) tape -> vget Rops (fst (norm_loop Rops tape fs w)) r = 0).
+Proof.
+  intros Hr. induction fs as [|A fs IH]; intros tape w H.
+  - inversion H; subst. cbn. split; auto. intros [E|E]; [exact E | inversion E].
+  - inversion H as [|sc ? tape' ? Hn Hrest]; subst. cbn [norm_loop].
+    specialize (IH tape' (zipw (fmul Rops) w sc) Hrest).
+    destruct (norm_loop Rops tape' fs (zipw (fmul Rops) w sc)) as [wf out]. cbn [fst] in *.
+    rewrite (vget_zipw_mul Rops Rops_ring) in IH. cbn [fmul Rops] in IH. destruct IH as [IH1 IH2].
+    destruct Hn as [_ Hn]. destruct (Hn r Hr) as [_ Hs]. split.
+    + intros Hw. apply IH1. nra.
+    + intros [E|E]; apply IH2.
+      * left. rewrite E. ring.
+      * inversion E as [? ? E0|? ? E1]; subst; [left; rewrite E0; ring | right; exact E1].
+Qed.
+Theorem cp_normalize_canonical tape w fs w' fs' :
+  cp_normalize Rops tape w fs = (w', fs') ->
+  Forall2 (norms_ok (length w)) tape (norm_inputs Rops w fs) ->
+  Forall2 (unit_or_zero (length w)) tape fs' /\
+  forall r, (r < length w)%nat -> 0 <= vget Rops w' r /\ (Exists (fun sc => vget Rops sc r = 0) tape -> vget Rops w' r = 0).
+Proof.
+  unfold cp_normalize. intros E H. split.
+  - pose proof (norm_loop_unit _ _ _ (ones Rops (length w)) H) as U. now rewrite E in U.
+  - intros r Hr. pose proof (norm_loop_weights _ r Hr _ _ (ones Rops (length w)) H) as [W1 W2].
+    rewrite E in W1, W2. cbn [fst] in W1, W2. split.
+    + apply W1. rewrite vget_ones by exact Hr. lra.
+    + intros X. apply W2. now right.
 Qed.
